@@ -334,7 +334,10 @@ def run(ctx: Ctx, sub=None, dynamic: bool = True) -> None:
             nonlocal dyn, evaluations
             tv, _ = x
             cls = getattr(t, name)
-            kwargs = {snake(k): sub.build(v) for k, v in tv.props.items()}
+            try:
+                kwargs = {snake(k): sub.build(v) for k, v in tv.props.items()}
+            except Exception:
+                return  # the valid surrounding cannot be built: C02's matter, not a validator probe
             if p["type"]["kind"] == "stringLiteral":
                 bad = p["type"]["value"] + "x"
             else:
